@@ -113,7 +113,8 @@ def run_verus_part(res, cfg, src, report_extra, modules=None, prefix=""):
         modules = cfg.get("verus_modules", [])
     if not hasattr(res, "demoted"):
         res.demoted = []
-    for attempt in range(6):
+    MAX_ATTEMPTS = 16      # Verus reports some front-end errors one at a time (e.g. nine impls expanded from one macro)
+    for attempt in range(MAX_ATTEMPTS):
         report = {}
         out = verus.assemble(src, unit, report)
         text = out.text()
@@ -130,6 +131,9 @@ def run_verus_part(res, cfg, src, report_extra, modules=None, prefix=""):
             # known before Verus runs, so that the fallbacks for changed functions still run when Verus rejects the unit wholesale
             res.fn_hashes = fn_hashes(src, report)
             res.changed_fns = set(fn for fn, h in res.fn_hashes.items() if fn in load_json(FNHASH_FILE, {}) and load_json(FNHASH_FILE, {})[fn] != h)
+        for mf in report.get("missing_fns", []):
+            if mf not in [d["fn"] for d in res.demoted]:
+                res.demoted.append({"fn": mf, "reason": "the function no longer exists in the tree (removed, renamed or inlined); its contract cannot be stated"})
         for la in report.get("lost_anchor", []):
             if la["fn"] not in [d["fn"] for d in res.demoted]:
                 res.demoted.append(la)
@@ -151,7 +155,7 @@ def run_verus_part(res, cfg, src, report_extra, modules=None, prefix=""):
             # A failing function that calls a NEW function without contract (e.g. code moved into a helper): a modular proof cannot follow
             # the call, so the failure says nothing about the code. Demote the caller (contract kept); its fallbacks decide.
             moved = callers_of_new_functions(src, report, failures, res)
-            if moved and attempt < 5:
+            if moved and attempt < MAX_ATTEMPTS - 1:
                 for fn, callee in moved:
                     fs = unit.fns.get(fn)
                     if fs is None:
@@ -183,7 +187,7 @@ def run_verus_part(res, cfg, src, report_extra, modules=None, prefix=""):
                 # a front-end error located outside every function body (e.g. at a call site whose callee's signature changed)
                 first = (front[0]["message"] if front else "front-end error").split("\n")[0]
                 front = front + [{"message": "Verus front end rejected the unit after this function's text changed: " + first, "rendered": "", "body": {"fn": c}} for c in culprits]
-        if not culprits or attempt == 5:
+        if not culprits or attempt == MAX_ATTEMPTS - 1:
             if ice:
                 raise ToolError("Verus crashed (internal error) and no changed function could be isolated:\n" + stderr[:600])
             raise ToolError("Verus front end rejected the generated unit (unsupported construct / renamed item?):\n" + "\n".join((f["rendered"] or f["message"]) for f in front[:5]))
